@@ -4,6 +4,8 @@ Engine B, sub-domain certificates (the installed Coq libraries define no Bessel/
 CERTIFIED per instance (one Coq lemma `Rabs (y - ref) <= 2^(8-p) * Rabs ref`; integrals are Coquelicot `RInt` terms enclosed by
 Coq Interval's `integral_intro`):
   besselj(n, x), integer n (incl. negative), real dyadic x:  (1/PI) RInt cos(n t - x sin t) 0 PI   (Bessel's integral);
+  besselj(n, x), 0 <= n <= 16, 0 < x < 1 tiny (down to 2^-24): exact rational partial sums of the defining alternating series,
+  the value lies between two consecutive partial sums (ASSUMED Leibniz bound);
   besseli(n, x), integer n:                                 (1/PI) RInt exp(x cos t) cos(n t) 0 PI;
   angerj(v, x), webere(v, x), any dyadic order v:            (1/PI) RInt cos / sin (v t - x sin t) 0 PI   (their definitions);
   struveh(n, x), struvel(n, x), n = 0, 1, 2:                 2 (x/2)^n / (sqrt(PI) Gamma(n+1/2)) RInt sin / sinh (x cos t) sin^(2n) t 0 (PI/2);
@@ -48,6 +50,8 @@ ASSUMPTIONS = [
     "Integral representations used as references (textbook, not proved in Coq): J_n(x) = (1/PI) RInt cos(n t - x sin t) 0 PI (integer n); "
     "I_n(x) = (1/PI) RInt exp(x cos t) cos(n t) 0 PI; Anger J_v and Weber E_v: the same integrals with cos / sin and real v (definitions); "
     "Struve H_v(x) = 2 (x/2)^v/(sqrt(PI) Gamma(v+1/2)) RInt sin(x cos t) sin^(2v) t 0 (PI/2), L_v with sinh; Gamma(n+1/2) = (2n-1)!!/2^n sqrt(PI).",
+    "Small arguments: J_n(x) = sum_k (-1)^k (x/2)^(2k+n)/(k!(n+k)!); for 0 < x <= 1 the terms decrease in modulus, so J_n(x) lies between two "
+    "consecutive partial sums (alternating series theorem, assumed).",
     "Half-integer orders: J_(1/2) = sqrt(2/(PI x)) sin x, J_(-1/2) = sqrt(2/(PI x)) cos x, I_(+-1/2) with sinh/cosh, the recurrences "
     "J_(v+1) = (2v/x) J_v - J_(v-1), I_(v+1) = I_(v-1) - (2v/x) I_v, Y_(n+1/2) = (-1)^(n+1) J_(-n-1/2), "
     "K_(n+1/2)(x) = sqrt(PI/(2x)) e^-x sum_{k<=n} (n+k)!/(k!(n-k)!) (2x)^-k, K_(-v) = K_v, H1 = J + iY, H2 = J - iY.",
@@ -105,6 +109,24 @@ def r_struvel(n, x):
     s2n = powz(sin(T), 2 * n) if n else ONE
     u = C(x) * cos(T)
     return _struve_coeff(n, x) * rint("t", (exp(u) - exp(-u)) * HALF * s2n, 0, PI * HALF)
+
+
+def b_besselj_small(cid, k, args, p, yvs, eps, meta, params):
+    """J_n(x) for 0 < x <= 1 by the defining power series in exact rational arithmetic: the terms alternate and decrease, so the
+    value lies between two consecutive partial sums (Leibniz; an ASSUMED textbook bound) -- tail_instance decides the tolerance
+    for every value of that interval."""
+    n, x = args
+    y, = _reals(yvs)
+    x = Fraction(x); h = x / 2
+    t = h ** n / math.factorial(n); s = t; j = 0
+    while True:
+        j += 1
+        t_next = -t * h * h / (j * (n + j))
+        if abs(t_next) * 2 ** (p + 40) < abs(s + t_next) and j >= 2:
+            break
+        s += t_next; t = t_next
+    lo = min(s, s + t_next)
+    return [tail_instance(cid + "_series", y, C(lo), C(abs(t_next)), eps, params=params, meta=meta)]
 
 
 def half_coeffs(n, x, hyperbolic=False):
@@ -257,6 +279,8 @@ EL = dict(precs=PRECS_EL)
 MQ = dict(precs=PRECS_EL, regime="metamorphic")
 
 reg("besselj_int", "besselj", lambda c, n, x: c.besselj(n, M(c, x)), r_besselj_int, lambda rng, p: [rng.randint(-4, 12), g_xs(rng)], w=1.5, regime="integral", **IQ)
+reg("besselj_int_small", "besselj", lambda c, n, x: c.besselj(n, M(c, x)), gen=lambda rng, p: [rng.randint(0, 16), Fraction(rng.randint(1, 255), 2 ** rng.randint(8, 24))],
+    build=b_besselj_small, w=1.5, regime="small-argument-series", **EL)
 reg("besseli_int", "besseli", lambda c, n, x: c.besseli(n, M(c, x)), r_besseli_int, lambda rng, p: [rng.randint(-3, 10), g_xs(rng, 20)], w=1.2, regime="integral", **IQ)
 reg("angerj", "angerj", lambda c, v, x: c.angerj(M(c, v), M(c, x)), r_angerj, lambda rng, p: [g_nonint_order(rng), g_xs(rng, 12)], w=0.6, regime="integral", **IQ)
 reg("webere", "webere", lambda c, v, x: c.webere(M(c, v), M(c, x)), r_webere, lambda rng, p: [g_order(rng), g_xs(rng, 12)], w=0.6, regime="integral", **IQ)
